@@ -16,7 +16,8 @@ RULE = ("EXHAUSTIVE: for rule in {OneOfMany, AtMostOne, AnyOfMany} x n in 1..5 s
         "invariants. non-trivial = every (node, operation) pair; distinct = hash(rule, n, node, operation)")
 ASSUMPTIONS = ["the exact successor of a multi-switch write is left open (only the invariants are demanded)",
                "bulk selection of several switches under OneOfMany/AtMostOne must keep the invariants and must not raise"]
-REQUIRED_EVENTS = ["states", "transitions", "published_updates_judged", "client_writes", "driver_assignments", "bulk_selections"]
+REQUIRED_EVENTS = ["states", "transitions", "published_updates_judged", "client_writes", "driver_assignments", "bulk_selections",
+                   "client_writes_with_injected_fault"]
 EXHAUSTIVE_NOTE = "the complete reachable state graph for every rule, 1..5 switches and every initial configuration, every operation on every node"
 SHARDED = False
 RULES = ["OneOfMany", "AtMostOne", "AnyOfMany"]
@@ -44,6 +45,12 @@ def operations(n):
     for r in range(n + 1):
         for sub in itertools.combinations(range(n), r):
             ops.append(("selecteds", sub))
+    # client writes during which something fails AFTER the rule was applied (a Change handler of the driver raises,
+    # delivery of the update to a client raises): the write is contained by the driver, the rule must still hold
+    for op in list(ops):
+        if op[0] in ("client1", "clientN"):
+            ops.append(("fault-change",) + op)
+            ops.append(("fault-delivery",) + op)
     return ops
 
 
@@ -85,8 +92,27 @@ def explore(ctx, rule, n, init, explored=None):
         default_on = default_on[0] if default_on else None
     spec = make_spec(rule, n, default_on or None)
     router = Router()
-    drv = D.build(spec)(router=router)
+    faults = {"change": False, "delivery": False}
+
+    def leaf_hook(ns, defs):
+        from indi.device import events
+        from indi.device.events import on
+        sources = [defs["g"].vectors["sw"].elements[f"s{i}"] for i in range(n)]
+
+        def failing_change(self, event):
+            if faults["change"]:
+                raise RuntimeError("failpoint: Change handler raises")
+        ns["failing_change"] = on(sources if len(sources) > 1 else sources[0], events.Change)(failing_change)
+
+    drv = D.build(spec, leaf_hook=leaf_hook)(router=router)
     rec = devmon.RecClient()
+    orig_recv = rec.message_from_device
+
+    def recv(message):
+        orig_recv(message)
+        if faults["delivery"]:
+            raise RuntimeError("failpoint: delivery to a client raises")
+    rec.message_from_device = recv
     router.register_client(rec)
     vec = D.vector_of(drv, "g", "sw")
     start = read_state(vec, n)
@@ -111,10 +137,20 @@ def explore(ctx, rule, n, init, explored=None):
             case = dict(cfg, node=list(node), op=[op[0]] + [list(x) if isinstance(x, tuple) else x for x in op[1:]])
             ctx.count("transitions")
             ctx.count({"client1": "client_writes", "clientN": "client_writes", "value": "driver_assignments", "bool": "driver_assignments",
-                       "selected": "bulk_selections", "selecteds": "bulk_selections"}[op[0]])
+                       "selected": "bulk_selections", "selecteds": "bulk_selections", "fault-change": "client_writes", "fault-delivery": "client_writes"}[op[0]])
             ctx.case_fast((rule, n, node, op))
+            fault = None
+            if op[0].startswith("fault-"):
+                fault = op[0][6:]
+                op = op[1:]
+                ctx.count("client_writes_with_injected_fault")
             try:
-                apply_op(router, rec, drv, vec, n, op)
+                if fault:
+                    faults[fault] = True
+                try:
+                    apply_op(router, rec, drv, vec, n, op)
+                finally:
+                    faults["change"] = faults["delivery"] = False
             except Exception as e:
                 ctx.violate(f"operation-raises:{op[0]}:{type(e).__name__}", f"{op} in state {node} raised {e!r}", case)
                 continue
@@ -122,9 +158,11 @@ def explore(ctx, rule, n, init, explored=None):
             bad = judge_state(rule, node, post)
             if bad:
                 ctx.violate(f"state:{bad}:{rule}:{op[0]}", f"{rule}: {op} took {node} to {post}", case)
-            # single-switch postconditions
+            # single-switch postconditions (not under an injected fault: the write may legitimately be cut short)
             single = None
-            if op[0] == "client1":
+            if fault:
+                pass
+            elif op[0] == "client1":
                 single = op[1][0]
             elif op[0] in ("value",):
                 single = (op[1], op[2])
@@ -141,7 +179,7 @@ def explore(ctx, rule, n, init, explored=None):
                         ctx.violate(f"any-of-many-assignment-changed-another-switch:{op[0]}", f"{op} in {node} -> {post}", case)
                     if post[i] != (val == "On"):
                         ctx.violate(f"any-of-many-assignment-not-applied:{op[0]}", f"{op} in {node} -> {post}", case)
-            if rule == "AnyOfMany" and op[0] == "clientN":
+            if rule == "AnyOfMany" and op[0] == "clientN" and not fault:
                 named = dict(op[1])
                 for j in range(n):
                     want = (named[j] == "On") if j in named else node[j]
